@@ -97,6 +97,14 @@ def eval_invalid(case):
     if case["field"] == "sum":
         s = case["value"]
         sat = sat_records([(0.5, 0.3, 0.2), (0.5 * s, 0.3 * s, 0.2 * s)])
+    elif case["field"] == "sum-among-many":  # ONE bad record among 100 good ones (first / middle / last position)
+        s, pos = case["value"]
+        recs = [(0.5 - 0.002 * k, 0.3 + 0.001 * k, 0.2 + 0.001 * k) for k in range(100)]
+        recs[pos] = tuple(x * s for x in recs[pos])
+        sat = sat_records(recs)
+    elif case["field"] == "sum-cancelling":  # two bad records whose errors cancel in any average
+        a, b = case["value"]
+        sat = sat_records([(0.5 * a, 0.3 * a, 0.2 * a), (0.5 * b, 0.3 * b, 0.2 * b), (0.4, 0.4, 0.2)])
     else:
         base[case["field"]] = case["value"]
     from bluebonnet.flow.flowproperties import RelPermParams  # noqa: PLC0415
@@ -104,11 +112,8 @@ def eval_invalid(case):
     try:
         with np.errstate(all="ignore"):
             relative_permeabilities(sat, RelPermParams(**base))
-    except ValueError:
+    except Exception:  # noqa: BLE001 - "rejected with an error", whatever its type
         return {"violations": [], "evals": 1, "outcome": "rejected"}
-    except Exception as e:  # noqa: BLE001
-        return {"violations": [V("invalid/wrong-exception", f"{case['field']}={case['value']}: {type(e).__name__}",
-                                 case=case)], "evals": 1, "outcome": "wrong-exception"}
     return {"violations": [V("invalid/accepted", f"{case['field']}={case['value']} was accepted", case=case)],
             "evals": 1, "outcome": "accepted"}
 
@@ -142,6 +147,18 @@ def eval_twophase(case):
             v = np.asarray(df[col], dtype=float)
             if not np.all(np.isfinite(v)):
                 viol.append(V(f"twophase/finite-{col}", f"{col} not finite for Sw={sw}", case=case))
+        # the helper's rows are Brooks-Corey relative permeabilities of its own saturation rows
+        from bluebonnet.flow.flowproperties import relative_permeabilities  # noqa: PLC0415
+        recs = sat_records(list(zip(np.asarray(df["So"], dtype=float), np.asarray(df["Sg"], dtype=float),
+                                    np.asarray(df["Sw"], dtype=float))))
+        with np.errstate(all="ignore"):
+            ref = relative_permeabilities(recs, prm)
+        for col, kmax in (("kro", prm.k_ro_max), ("krw", prm.k_rw_max), ("krg", prm.k_rg_max)):
+            v = np.asarray(df[col], dtype=float)
+            r = np.asarray(ref[col], dtype=float)
+            if not (np.all(np.abs(v - r) <= 1e-15 + 4 * np.finfo(float).eps * np.abs(r)) and v.max() <= kmax + 1e-15 and v.min() >= 0):
+                viol.append(V(f"twophase/{col}", f"helper table {col} (range {v.min()!r}..{v.max()!r}, k_max {kmax}) is not "
+                              f"relative_permeabilities of its own saturation rows for Sw={sw}", case=case))
     for sw in (s_wc + 0.05, min(1.0, s_wc + 0.5)):
         try:
             relative_permeabilities_twophase(prm, sw)
@@ -174,8 +191,15 @@ def cases(tier, seed):
     for f, vals in [("n_o", [-1, 0, 0.99, 6.01, 8]), ("n_w", [-1, 0, 0.99, 6.01, 8]), ("n_g", [-1, 0, 0.99, 6.01, 8]),
                     ("S_or", [-0.01, 1.01]), ("S_wc", [-0.01, 1.01]), ("S_gc", [-0.01, 1.01]),
                     ("k_ro_max", [-0.01, 1.01]), ("k_rw_max", [-0.01, 1.01]), ("k_rg_max", [-0.01, 1.01]),
-                    ("sum", [0.9, 1.01, 1.1, 2.0, 0.0])]:
+                    ("sum", [0.9, 1.01, 1.1, 2.0, 0.0, 0.99, 1.002]),
+                    ("sum-among-many", [[1.05, 0], [1.05, 50], [1.05, 99], [0.9, 37]]),
+                    ("sum-cancelling", [[0.9, 1.1], [0.5, 1.5]])]:
         out += [{"kind": "invalid", "field": f, "value": v} for v in vals]
+    # large residuals: little mobile pore space left (denominator 0.04, 1e-3, 1e-9), one large residual on its own
+    big = [(0.6, 0.3, 0.06), (0.9, 0.05, 0.049), (0.0, 0.97, 0.0), (0.5, 0.0, 0.0), (0.3, 0.3, 0.4 - 1e-9), (0.97, 0.0, 0.029)]
+    for res in big:
+        out.append({"kind": "valid", "res": list(res), "exps": exps[:: max(1, len(exps) // 12)], "ends": [list(e) for e in ends],
+                    "step": 1 / 20})
     for res, e3 in itertools.product(itertools.product(rv, repeat=3), [(1.0, 1.0, 1.0), (2.0, 1.5, 3.7)]):
         if sum(res) < 1:
             out.append({"kind": "twophase", "res": list(res), "exps": list(e3), "ends": [1.0, 0.4, 1.0]})
